@@ -160,6 +160,8 @@ def nextest_config(sc, profile):
     if sc.get("retry_only"):
         lines.append(f'[[profile.{profile}.overrides]]\nfilter = "test({sc["retry_only"]})"\n'
                      f'retries = {{ backoff = "fixed", count = {sc["retries"]}, delay = "{sc["delay_ms"]}ms" }}')
+    for pkg, n in (sc.get("pkg_retries") or {}).items():
+        lines.append(f'[[profile.{profile}.overrides]]\nfilter = "package({pkg})"\nretries = {n}')
     p = sc.get("priorities")
     if p:
         lines.append(f'[[profile.{profile}.overrides]]\nfilter = "test({p["high"]})"\npriority = {p["value"]}')
@@ -264,6 +266,9 @@ def expected_attempts(sc, t):
     total = sc["retries"] + 1
     if sc.get("retry_only") and sc["retry_only"] not in t["name"]:
         total = 1
+    if sc.get("pkg_retries"):
+        # retries given per package by overrides with a package() filter (the first matching override wins)
+        total = sc["pkg_retries"].get(t["bin"].split("::")[0], sc["retries"]) + 1
     res = []
     for k in range(total):
         e = t["expect"][min(k, len(t["expect"]) - 1)]
@@ -530,8 +535,9 @@ def oracle_C07(sc, res):
         key = (t["bin"], t["name"])
         lst = sorted(inv.get(key, []), key=lambda i: i["attempt"])
         exp = expected_attempts(sc, t)
-        if len(lst) > sc["retries"] + 1:
-            return f"{key}: {len(lst)} attempts with retries = {sc['retries']}"
+        allowed = (sc["pkg_retries"].get(t["bin"].split("::")[0], sc["retries"]) if sc.get("pkg_retries") else sc["retries"])
+        if len(lst) > allowed + 1:
+            return f"{key}: {len(lst)} attempts with retries = {allowed}"
         if len(lst) > len(exp):
             return f"{key}: an attempt was made after a passing one ({len(lst)} attempts, expected {exp})"
         if not canc and len(lst) != len(exp):
@@ -776,7 +782,7 @@ def oracle_C10(sc, res):
     return None
 
 
-ORACLES = {"C01": oracle_C01, "C02": oracle_C02, "C03": oracle_C03, "C07": oracle_C07, "C08": oracle_C08,
+ORACLES = {"C06": lambda sc, res: oracle_C07(sc, res), "C01": oracle_C01, "C02": oracle_C02, "C03": oracle_C03, "C07": oracle_C07, "C08": oracle_C08,
            "C10": oracle_C10, "C14": oracle_C14, "C15": oracle_C15}
 
 
@@ -860,6 +866,18 @@ def directed(prop):
                  for i, sg in enumerate([signal.SIGUSR1, signal.SIGUSR2, signal.SIGBUS, signal.SIGSYS, signal.SIGHUP])]
         out.append(dict(tests=tests, retries=0, delay_ms=0, backoff="fixed", failfast="noff", threads=2, filter=None,
                         run_ignored="default", sigint_at=None, priorities=None, groups=None))
+    if prop in ("C06", "C07"):
+        # two binaries with the same binary NAME (t1) in different packages, settings given per package: each
+        # test gets its own package's retries (alpha: 0, beta: 2), whichever binary is looked at first
+        tests = [dict(bin="alpha::t1", name="t00_a", ignored=False, attempts=[{"sleep": 0.02, "exit": 1}], expect=["fail"], mode="fail"),
+                 dict(bin="beta::t1", name="t01_b", ignored=False,
+                      attempts=[{"sleep": 0.02, "exit": 1}, {"sleep": 0.02, "exit": 1}, {"sleep": 0.02, "exit": 0}],
+                      expect=["fail", "fail", "pass"], mode="flaky"),
+                 dict(bin="beta::t2", name="t02_c", ignored=False, attempts=[{"sleep": 0.02, "exit": 1}, {"sleep": 0.02, "exit": 0}],
+                      expect=["fail", "pass"], mode="flaky")]
+        out.append(dict(tests=tests, retries=0, delay_ms=0, backoff="fixed", failfast="noff", threads=2, filter=None,
+                        run_ignored="default", sigint_at=None, priorities=None, groups=None,
+                        pkg_retries={"beta": 2, "alpha": 0}))
     if prop in ("C07", "C03"):
         # attempts that time out are failed attempts too: retried like any other (hang once, then pass; hang always)
         tests = [dict(bin="alpha::t1", name="t00_a", ignored=False,
